@@ -46,7 +46,7 @@ add("C07", "CH",
     "pager the wrapped rpc, the request it sent, the first page and the caller's options (CrossHair 'Confirmed over all "
     "paths'; counterexamples replayed in plain Python).",
     "DESIGN.md section 5 C07",
-    "Bounds: <=3 pages x <=2 items quick (4 x 2 thorough), tokens <=2 chars. Message classes are pure-Python stand-ins "
+    "Bounds: <=3 pages x <=2 items quick (5 x 2 thorough), tokens <=2 chars. Message classes are pure-Python stand-ins "
     "(lib/fakes.py); descriptors are SimpleNamespace stand-ins. Trusted: CrossHair 0.0.110 + z3 (guarded by a "
     "reachability twin and in-memory mutant canaries each run).")
 
